@@ -153,6 +153,19 @@ func (g *G) MsgStress(allowPlural bool) []Cmd {
 		if !g.Chance(6) { // (else: a plural whose {default} says nothing)
 			pl.Else = parts(1 + g.Intn(4))
 		}
+		if g.P.NestedPlural && g.Chance(35) {
+			// a plural inside a case of the plural (the sole content of that case), its own cases drawing
+			// from the same placeholders: which of two gets which suffix is decided by the order of the walk
+			lets = append(lets, Cmd{K: "let", Var: "num2", Expr: &Expr{Op: "int", I: int64(g.Intn(3))}})
+			inner := Cmd{K: "plural", Expr: &Expr{Op: "ref", Name: "num2"}, Branches: []Branch{{Int: 1, Body: parts(1 + g.Intn(3))}}}
+			if len(pl.Branches) > 0 && g.Chance(70) {
+				inner.Else = pl.Branches[0].Body // (what the case said is what the inner plural says by default)
+				pl.Branches[0].Body = []Cmd{inner}
+			} else {
+				inner.Else = pl.Else
+				pl.Else = []Cmd{inner}
+			}
+		}
 		msg.Body = []Cmd{pl}
 	} else {
 		n := 1 + g.Intn(10)
